@@ -150,7 +150,10 @@ def execute_full(root, path):
 
 
 def observe(ops, root, xpaths=()):
-    nodes = build(ops)
+    return observe_nodes(build(ops), ops, root, xpaths)
+
+
+def observe_nodes(nodes, ops, root, xpaths=()):
     r = nodes[root]
     out = ["wf=%d" % wf(ops, root), "prod=%d" % productive(ops), "acyc=%d" % acyclic(ops),
            "items=" + res(lambda: [n.k for n in r.items()], ints)]
@@ -175,7 +178,10 @@ def observe(ops, root, xpaths=()):
         out.append("valid=" + ints(valid))
         out.append("invalid=" + ints(invalid))
         a = []
+        reach = set(id(n) for n in its)
         for n in nodes:
+            if id(n) not in reach:
+                continue           # annotations are only compared on the nodes items() yields
             for p, i in enumerate(n.incoming_transitions):
                 a.append("r%d.%d=%s," % (n.k, p, dist(i._len_to_root)))
             if isinstance(n, N.Decision):
